@@ -53,6 +53,8 @@ func VerifC02Pool() {
 		// the host keeps checking in
 		db.UpdateNodePeers(store.NodeID(hid), nil, 0)
 		report := verifapi.Bool(fmt.Sprint("report", k))
+		// the reported block number is arbitrary (it may regress): billing does not depend on it
+		VerifBlockNumber = verifapi.Uint64(fmt.Sprint("block", k))
 		before, _ := db.GetNodeBalance(store.NodeID(cid))
 		hostBefore, _ := db.GetNodeBalance(store.NodeID(hid))
 		var resp *UpdateResponse
